@@ -105,10 +105,11 @@ type gfact struct {
 	notNaN bool
 	notInf bool
 	boolV  tri3
+	lenMask uint8 // possible lengths of a slice/string: bit0 len==0, bit1 len==1, bit2 len>=2 (0: nothing known)
 }
 
 func (f gfact) String() string {
-	return fmt.Sprintf("e%d q%v%q n%v i%d f%v%v b%d", f.empty, f.hasEq, f.eq, f.neq, f.isNil, f.notNaN, f.notInf, f.boolV)
+	return fmt.Sprintf("e%d q%v%q n%v i%d f%v%v b%d l%d", f.empty, f.hasEq, f.eq, f.neq, f.isNil, f.notNaN, f.notInf, f.boolV, f.lenMask)
 }
 
 func mergeFact(a, b gfact) gfact {
@@ -136,6 +137,9 @@ func mergeFact(a, b gfact) gfact {
 	a.notInf = a.notInf || b.notInf
 	if b.boolV != triMaybe {
 		a.boolV = b.boolV
+	}
+	if b.lenMask != 0 {
+		a.lenMask = b.lenMask
 	}
 	return a
 }
@@ -330,6 +334,14 @@ func (g *gram) info(f *ssa.Function) *gfinfo {
 			for _, op := range in.Operands(ops[:0]) {
 				if op != nil && *op != nil {
 					fi.useBlocks[*op] = append(fi.useBlocks[*op], b)
+					// a load of a spilled parameter is a use of the parameter (facts are kept under its name)
+					if _, isParam := (*op).(*ssa.Parameter); !isParam {
+						if root, ok := fi.byName[g.pathKey(*op)]; ok && root != *op {
+							if _, isParam := root.(*ssa.Parameter); isParam {
+								fi.useBlocks[root] = append(fi.useBlocks[root], b)
+							}
+						}
+					}
 				}
 			}
 			if v, ok := in.(ssa.Value); ok {
